@@ -1139,6 +1139,11 @@ func (s *session) settle(m *mvb, ev *mev, countsForD bool) {
 		// the same event delivered again after a re-request (under another snapshot announcement), or acknowledged a second
 		// time: the tracked position is that event's position either way; the library keeps the one settled last
 		m.maxTuple = ev.tuple
+		if countsForD {
+			// ... and flags the vBucket for saving again (an acknowledgement at the tracked position is stored like one above it)
+			m.dirtyGen++
+			s.cleanSince = false
+		}
 	}
 	if ev.settledAt >= 0 {
 		return
